@@ -44,6 +44,14 @@ def same_form(ctx, P):
             og = b.operand_origins(a)
             ctx.check('%s:S16-1:sign-form:%s' % (P, p), 'R-sib', 'the text handed to %s in %s derives from the verifier\'s form (dash_unescape_and_trim of the escaped text)' % (what, p.split('::')[-1]),
                       has_origin(og, FORM), function=p, site=site(b, i), missing=None if has_origin(og, FORM) else 'signer hashes normalize(text); verifier hashes normalize(trim(unescape(escape(text))))')
+        # ... and that form is derived from the ESCAPED text that is stored and later unescaped by the verifier, not from the raw input
+        # (signed_form strips one "- " per line: applied to raw text it eats a genuine leading "- ", which the verifier then restores)
+        sf = [(i, t) for i, t in b.calls(r'cleartext::signed_form$')]
+        if sf:
+            bad = [site(b, i) for i, t in sf if not has_origin(b.operand_origins(t['args'][0]), r'call:composed::cleartext::dash_escape$')]
+            stored = [i for (i, k, s_) in b.constructs(r'CleartextSignedMessage$') for fn_, o in zip(s_['r']['fields'], s_['r']['o']) if fn_ == 'csf_encoded_text' and has_origin(b.operand_origins(o), r'call:composed::cleartext::dash_escape$')]
+            ctx.check('%s:S16-1:sign-form-from-escaped:%s' % (P, p), 'R-sib', 'signed_form() in %s is applied to the dash-escaped text that is stored in the message (the value the verifier unescapes)' % p.split('::')[-1],
+                      not bad and bool(stored), function=p, missing=('signed_form applied to a value that is not dash_escape(text) at %s' % ', '.join(bad)) if bad else (None if stored else 'stored csf_encoded_text is not dash_escape(text)'))
     ctx.floor(P + ':S16-1:floor', 'cleartext functions that feed a signer', n, 2)
     # verify side
     for nm in ('verify', 'verify_many'):
